@@ -154,13 +154,13 @@ fn queries(d: &RDoc) -> Vec<(u32, u32)> {
         for s in &ix.sections {
             let (l, c) = s.off;
             for dl in 0..=2u32 {
-                for cc in [0, c.saturating_sub(1), c, c + 1, c + 2, c + 3, c + 4, c + 7] {
-                    q.push((l + dl, cc));
+                for cc in [0, c.saturating_sub(1), c, c.saturating_add(1), c.saturating_add(2), c.saturating_add(3), c.saturating_add(4), c.saturating_add(7), c.saturating_add(0x1000_0000), u32::MAX] {
+                    q.push((l.saturating_add(dl), cc));
                 }
             }
             if l > 0 {
                 q.push((l - 1, u32::MAX));
-                q.push((l - 1, c + 1));
+                q.push((l - 1, c.saturating_add(1)));
             }
         }
     }
@@ -401,6 +401,30 @@ pub fn run(run: &mut Run) -> Finish {
             }
             if ran {
                 l.case(true, h64(&("many", n, phase, how)));
+            }
+        }
+    });
+    // extreme coordinates that stay representable: a mid-line section far to the right whose map has a
+    // token on a later line at a large column (not shifted), sections far down
+    let big: Vec<RDoc> = {
+        let m = |toks: Vec<RTok>| RDoc::Regular(RMap { sources: vec!["a".into()], names: vec![], tokens: toks, ..Default::default() });
+        let sec = |off: (u32, u32), map: RDoc| RSection { off, url: None, map: Some(Box::new(map)) };
+        vec![
+            RDoc::Index(RIndex { file: None, sections: vec![sec((0, 1 << 31), m(vec![RTok::new(0, 5, Some((0, 1, 1, None))), RTok::new(1, 0x9000_0000, Some((0, 2, 2, None)))]))] }),
+            RDoc::Index(RIndex { file: None, sections: vec![sec((0, 0), m(vec![RTok::new(0, 0, Some((0, 0, 0, None)))])), sec((1 << 31, 1 << 31), m(vec![RTok::new(0, (1 << 31) - 1, Some((0, 3, 3, None))), RTok::new(1, u32::MAX, Some((0, 4, 4, None)))]))] }),
+            RDoc::Index(RIndex { file: None, sections: vec![sec((u32::MAX, 0), m(vec![RTok::new(0, u32::MAX, Some((0, 5, 5, None)))]))] }),
+        ]
+    };
+    run.seq_slice("extreme coordinates: section offsets 2^31 and 2^32-1 with tokens whose flattened position stays within 32 bits", 21, |base, l| {
+        for (j, doc) in big.iter().enumerate() {
+            for how in 0..2 {
+                let (v, ran) = check_doc(doc, how);
+                if let Some((sig, what)) = v {
+                    l.violation_sub(base, (j * 2 + how) as u64, Viol::new(format!("C08/{sig}"), format!("{what}\nindex: {}", doc_brief(doc)), json!({"how": how, "doc": serde_json::to_value(doc).unwrap()})));
+                }
+                if ran {
+                    l.case(true, h64(&("extreme", j, how)));
+                }
             }
         }
     });
